@@ -581,7 +581,11 @@ func controlled(g *graph, pick func(*sched, []*thread) *thread, watchdog time.Du
 	probs := append([]string{}, s.problems...)
 	s.mu.Unlock()
 	for _, p := range probs {
-		r.violate("C04", "scheduler-anomaly", p)
+		kind := "scheduler-anomaly"
+		if strings.HasPrefix(p, "second goroutine spawned") {
+			kind = "spawned-twice" // a target that was already started has been started again
+		}
+		r.violate("C04", kind, p)
 	}
 	if v.kind == "pruned" {
 		s.release()
